@@ -483,7 +483,7 @@ func c14ReuseScenario() Scenario {
 		}
 	}
 	count := func(tier string) int {
-		n := len(c14Progs) + len(c14ReusePrograms)
+		n := len(c14Progs) + len(c14ReusePrograms) + len(corpus())
 		for _, f := range fams {
 			n += f.Count(tier)
 		}
@@ -502,6 +502,17 @@ func c14ReuseScenario() Scenario {
 			return
 		}
 		idx -= len(c14ReusePrograms)
+		// every program shipped with the repository
+		if idx < len(corpus()) {
+			mods, name, skip := repoProgram(idx)
+			if skip != "" {
+				r.Note("repository-program-skipped:"+skip, 1)
+				return
+			}
+			c14Reuse(name, mods["main"], mods, defaultOpts, !strings.Contains(mods["main"], "trigger ") && !strings.Contains(mods["main"], "spawn "), r)
+			return
+		}
+		idx -= len(corpus())
 		for _, f := range fams {
 			if idx < f.Count(tier) {
 				pc, ok := f.Gen(tier, idx)
